@@ -70,3 +70,69 @@ def global_state_digest():
     h.update(st[1].tobytes())
     h.update(repr(st[2:]).encode())
     return h.hexdigest()[:16]
+
+
+class global_rng_interrupts:
+    """Writes to numpy's process-global legacy generator that land INSIDE a library call, at Python line
+    boundaries of library code - what another thread of the process, a signal handler or a callback does to
+    state that every caller shares.  The positions (counted in line events inside files under `prefix`) and
+    the actions are drawn from the stream before the call starts, so a call costs a handful of draws whatever
+    its length.  Actions: reseed (the draws that follow repeat an earlier sequence), advance (other code
+    consumed numbers), rewind to the state at the start of the call (two restarts see the very same draws)."""
+
+    def __init__(self, stream, prefix, res=None, log=None, max_events=4, horizon=3000):
+        import sys
+
+        self.sys = sys
+        self.prefix = prefix
+        self.res, self.log = res, log
+        n = 1 + stream.draw(max_events)
+        plan = []
+        for _ in range(n):
+            # half of the positions early in the call, the rest anywhere up to the horizon
+            pos = stream.draw(200) if stream.draw(2) else stream.draw(horizon)
+            plan.append((pos, stream.draw(3), stream.draw(1 << 16)))
+        self.plan = sorted(plan)
+        self.count = 0
+        self.fired = []
+        self.k = 0
+
+    def _act(self, frame):
+        pos, kind, val = self.plan[self.k]
+        self.k += 1
+        if kind == 0:
+            np.random.seed(val % 5)
+            what = "reseed"
+        elif kind == 1:
+            np.random.randn(1 + val % 11)
+            what = "advance"
+        else:
+            np.random.set_state(self.start_state)
+            what = "rewind"
+        where = "%s:%s" % (frame.f_code.co_name.lstrip("_"), frame.f_lineno)
+        self.fired.append((what, where))
+        if self.res is not None:
+            self.res.fault("global_rng_write_inside_call:" + what)
+        if self.log is not None:
+            self.log.add("rng_interrupt", what, where, self.count)
+
+    def _local(self, frame, event, arg):
+        if event == "line" and self.k < len(self.plan):
+            self.count += 1
+            while self.k < len(self.plan) and self.count > self.plan[self.k][0]:
+                self._act(frame)
+        return self._local
+
+    def _glob(self, frame, event, arg):
+        if event == "call" and self.k < len(self.plan) and frame.f_code.co_filename.startswith(self.prefix):
+            return self._local
+        return None
+
+    def __enter__(self):
+        self.start_state = np.random.get_state()
+        self.prev = self.sys.gettrace()
+        self.sys.settrace(self._glob)
+        return self
+
+    def __exit__(self, *a):
+        self.sys.settrace(self.prev)
